@@ -138,12 +138,42 @@ class Observation:
         self.aligned = []        # member names of every group passed to align_to_ref, in order
         self.corrections = {}    # id(corrector) -> number of set_correction calls
         self.expansions = []     # number of rows of every expand_catalog call
+        self.footprints = []     # (rows after, area of the footprint after, area of a freshly built one)
         self.kept = None         # id(group object) -> number of the group (order of the first ordering call)
         self.kept_names = None   # member names of those groups
         self.nmatches = []       # nmatches returned by every match2ref call
 
     def aligning_records(self):
         return [m for k, m in self.log if k == 'aligning']
+
+
+def footprint_after_expansion(refcat):
+    """(rows, area of refcat's current footprint, area of the footprint of a RefCatalog freshly built from
+    the same rows): the footprint of a reference catalog is a function of its rows, so the two agree
+    whatever sequence of expansions produced the rows"""
+    import math
+    from astropy.table import Table
+    from tweakwcs.wcsimage import RefCatalog
+    cat = refcat.catalog
+    fresh = RefCatalog(Table([np.array(cat['RA'], dtype=float), np.array(cat['DEC'], dtype=float)],
+                             names=('RA', 'DEC')))
+
+    def ar(p):
+        a = abs(p.area())
+        return min(a, 4 * math.pi - a)
+    return (len(cat), ar(refcat.polygon), ar(fresh.polygon))
+
+
+def stale_footprints(obs):
+    """expansions after which the footprint differs from the footprint of the rows (relative 1e-3: the
+    areas of spherical_geometry are reproducible to ~1e-6 only)"""
+    bad = []
+    for k, (n, a, f) in enumerate(obs.footprints):
+        if n is None:
+            bad.append({'expansion': k, 'error': f})
+        elif abs(a - f) > 1e-3 * max(a, f) + 1e-18:
+            bad.append({'expansion': k, 'rows': n, 'footprint_area': a, 'area_of_fresh_footprint': f})
+    return bad
 
 
 @contextlib.contextmanager
@@ -267,7 +297,12 @@ def observe(correctors=()):
 
     def expand_catalog(self, catalog):
         obs.expansions.append(len(catalog))
-        return orig_expand(self, catalog)
+        r = orig_expand(self, catalog)
+        try:
+            obs.footprints.append(footprint_after_expansion(self))
+        except Exception as e:   # noqa
+            obs.footprints.append((None, None, repr(e)[:200]))
+        return r
     wcsimage.RefCatalog.expand_catalog = expand_catalog
 
     wrapped_corr = []
